@@ -348,6 +348,8 @@ func recipeCause(r *Recipe) (container, cause string) {
 		}
 	}
 	switch {
+	case recipeHasLiteralRange(r) && !unsup && !zero && !many && !long:
+		cause = "absurd-byte-range"
 	case recipeHasRangeWithoutOffset(r) && !unsup && !zero && !many && !long:
 		cause = "byte-range-without-offset"
 	case long && !unsup && !zero && !many:
@@ -424,6 +426,8 @@ type done struct {
 	abs    *abstraction
 	rr     runResult
 	err    string
+	// lit: the recipe lists a resource with a literal (absurd) byte range; refused: one the stub answers with 416
+	lit, refused bool
 }
 
 type runner struct {
@@ -689,13 +693,245 @@ const llPlaylist = "#EXTM3U\n#EXT-X-VERSION:9\n#EXT-X-TARGETDURATION:2\n#EXT-X-S
 	"#EXT-X-PART-INF:PART-TARGET=0.5\n#EXT-X-MEDIA-SEQUENCE:5\n#EXT-X-MAP:URI=\"s0_init.mp4\"\n" +
 	"#EXTINF:1,\ns0_seg0.mp4\n#EXTINF:1,\ns0_seg0.mp4\n#EXT-X-PRELOAD-HINT:TYPE=PART,URI=\"s0_seg0.mp4\"\n"
 
+// ---------- grammar-aware, line-level mutations of playlists ----------
+
+// Valid playlists that between them carry every tag the decoder reads (so that a mutated line reaches every
+// tag's split / index / attribute expressions): EXTINF with and without title, EXT-X-BYTERANGE with and without
+// offset, EXT-X-MAP with BYTERANGE, EXT-X-PART, EXT-X-PRELOAD-HINT, EXT-X-KEY, EXT-X-PROGRAM-DATE-TIME,
+// EXT-X-SERVER-CONTROL, EXT-X-PART-INF, EXT-X-SKIP, EXT-X-START, EXT-X-STREAM-INF, EXT-X-MEDIA, ...
+// The URIs are the ones the corpus recipes serve (byte ranges longer than the resource: the stub returns what exists).
+const vodTSBase = "#EXTM3U\n#EXT-X-VERSION:4\n#EXT-X-INDEPENDENT-SEGMENTS\n#EXT-X-START:TIME-OFFSET=0.5\n#EXT-X-ALLOW-CACHE:YES\n" +
+	"#EXT-X-TARGETDURATION:2\n#EXT-X-MEDIA-SEQUENCE:0\n#EXT-X-DISCONTINUITY-SEQUENCE:0\n#EXT-X-PLAYLIST-TYPE:VOD\n" +
+	"#EXT-X-KEY:METHOD=AES-128,URI=\"key.bin\",IV=0x00000000000000000000000000000001,KEYFORMAT=\"identity\",KEYFORMATVERSIONS=\"1\"\n" +
+	"#EXT-X-PROGRAM-DATE-TIME:2010-01-01T01:01:01Z\n#EXT-X-BITRATE:1000\n#EXTINF:1.00000,title\n#EXT-X-BYTERANGE:100000@0\ns0_seg0.ts\n" +
+	"#EXT-X-DISCONTINUITY\n#EXT-X-KEY:METHOD=NONE\n#EXTINF:1,\n#EXT-X-BYTERANGE:100000\ns0_seg0.ts\n#EXT-X-ENDLIST\n"
+
+const vodMP4Base = "#EXTM3U\n#EXT-X-VERSION:7\n#EXT-X-TARGETDURATION:2\n#EXT-X-MEDIA-SEQUENCE:0\n#EXT-X-PLAYLIST-TYPE:VOD\n" +
+	"#EXT-X-MAP:URI=\"s0_init.mp4\",BYTERANGE=\"100000@0\"\n" +
+	"#EXT-X-KEY:METHOD=SAMPLE-AES,URI=\"skd://key\",KEYFORMAT=\"com.apple.streamingkeydelivery\",KEYFORMATVERSIONS=\"1\"\n" +
+	"#EXT-X-PROGRAM-DATE-TIME:2010-01-01T01:01:01.000Z\n#EXTINF:1.00000,\n#EXT-X-BYTERANGE:100000@0\ns0_seg0.mp4\n" +
+	"#EXT-X-GAP\n#EXTINF:1.00000,no desc\n#EXT-X-BYTERANGE:100000\ns0_seg0.mp4\n#EXT-X-ENDLIST\n"
+
+const llMP4Base = "#EXTM3U\n#EXT-X-VERSION:9\n#EXT-X-TARGETDURATION:2\n" +
+	"#EXT-X-SERVER-CONTROL:CAN-BLOCK-RELOAD=YES,PART-HOLD-BACK=1.0,CAN-SKIP-UNTIL=12.0\n#EXT-X-PART-INF:PART-TARGET=0.5\n" +
+	"#EXT-X-MEDIA-SEQUENCE:5\n#EXT-X-SKIP:SKIPPED-SEGMENTS=0\n#EXT-X-MAP:URI=\"s0_init.mp4\",BYTERANGE=\"100000@0\"\n" +
+	"#EXT-X-PROGRAM-DATE-TIME:2010-01-01T01:01:01.000Z\n" +
+	"#EXT-X-PART:DURATION=0.5,URI=\"s0_seg0.mp4\",INDEPENDENT=YES,BYTERANGE=\"100000@0\"\n#EXT-X-PART:DURATION=0.5,URI=\"s0_seg0.mp4\",BYTERANGE=100000\n" +
+	"#EXTINF:1.00000,\ns0_seg0.mp4\n" +
+	"#EXT-X-PART:DURATION=0.5,URI=\"s0_seg0.mp4\",INDEPENDENT=YES\n#EXT-X-PART:DURATION=0.5,URI=\"s0_seg0.mp4\"\n#EXTINF:1,\ns0_seg0.mp4\n" +
+	"#EXT-X-PART:DURATION=0.5,URI=\"s0_seg0.mp4\",GAP=YES\n" +
+	"#EXT-X-PRELOAD-HINT:TYPE=PART,URI=\"s0_seg0.mp4\",BYTERANGE-START=0,BYTERANGE-LENGTH=100000\n"
+
+const multiBase = "#EXTM3U\n#EXT-X-VERSION:7\n#EXT-X-INDEPENDENT-SEGMENTS\n#EXT-X-START:TIME-OFFSET=1.5\n" +
+	"#EXT-X-MEDIA:TYPE=AUDIO,GROUP-ID=\"aud\",LANGUAGE=\"en\",NAME=\"a0\",DEFAULT=YES,AUTOSELECT=YES,FORCED=NO,CHANNELS=\"2\",URI=\"s0.m3u8\"\n" +
+	"#EXT-X-MEDIA:TYPE=CLOSED-CAPTIONS,GROUP-ID=\"cc\",NAME=\"cc1\",INSTREAM-ID=\"CC1\"\n" +
+	"#EXT-X-STREAM-INF:BANDWIDTH=1000000,AVERAGE-BANDWIDTH=900000,CODECS=\"avc1.640028,mp4a.40.2\",RESOLUTION=1920x1080,FRAME-RATE=30.000,AUDIO=\"aud\",CLOSED-CAPTIONS=\"cc\"\ns0.m3u8\n" +
+	"#EXT-X-STREAM-INF:BANDWIDTH=1000,CODECS=\"avc1.42c028\",VIDEO=\"v\",SUBTITLES=\"subs\"\ns0.m3u8\n"
+
+var basePlaylists = []string{vodTSBase, vodMP4Base, llMP4Base, multiBase}
+
+// splitAttrs splits an attribute list at the commas that are outside quotes.
+func splitAttrs(v string) []string {
+	var out []string
+	inQ, from := false, 0
+	for i := 0; i < len(v); i++ {
+		switch {
+		case v[i] == '"':
+			inQ = !inQ
+		case v[i] == ',' && !inQ:
+			out = append(out, v[from:i])
+			from = i + 1
+		}
+	}
+	return append(out, v[from:])
+}
+
+var lineMutKinds = []string{"cut-from-comma", "drop-value", "drop-colon", "tag-only", "delete-attribute", "drop-closing-quote",
+	"drop-both-quotes", "truncate", "duplicate", "absurd-number", "delete-next-line", "empty-attribute-value", "drop-equals"}
+
+var absurdNumbers = []string{"9223372036854775808", "9223372036854775807", "18446744073709551615", "18446744073709551616",
+	"4611686018427387904", "2147483648", "4294967296", "0", "-1", "1e400", "99999999999999999999999999"}
+
+var digitsRe = regexp.MustCompile(`[0-9]+(\.[0-9]+)?`)
+
+// mutateTagLine applies one line-level mutation of the given kind to lines[i] (a tag line). Kinds that do not
+// apply to the line (no comma, no attribute, no quote, no number) fall back to a simpler one.
+func mutateTagLine(f *rng.R, lines []string, i int, kind string) []string {
+	out := append([]string{}, lines...)
+	l := lines[i]
+	colon := strings.IndexByte(l, ':')
+	tag, val := l, ""
+	if colon >= 0 {
+		tag, val = l[:colon], l[colon+1:]
+	}
+	pickAttr := func(pred func(string) bool) (attrs []string, k int) {
+		attrs = splitAttrs(val)
+		var ok []int
+		for j, a := range attrs {
+			if pred(a) {
+				ok = append(ok, j)
+			}
+		}
+		if len(ok) == 0 {
+			return attrs, -1
+		}
+		return attrs, ok[f.Intn(len(ok))]
+	}
+	quoted := func(a string) bool { return strings.Count(a, "\"") >= 2 }
+	switch kind {
+	case "cut-from-comma": // #EXTINF:<duration> without the comma; an attribute list cut after its first attribute
+		if c := strings.IndexByte(l, ','); c >= 0 {
+			out[i] = l[:c]
+			return out
+		}
+		return mutateTagLine(f, lines, i, "drop-value")
+	case "drop-value":
+		out[i] = tag + ":"
+	case "drop-colon":
+		out[i] = tag + val
+	case "tag-only":
+		out[i] = tag
+	case "delete-attribute":
+		attrs := splitAttrs(val)
+		if colon < 0 || len(attrs) < 2 {
+			return mutateTagLine(f, lines, i, "drop-value")
+		}
+		k := f.Intn(len(attrs))
+		attrs = append(attrs[:k:k], attrs[k+1:]...)
+		out[i] = tag + ":" + strings.Join(attrs, ",")
+	case "drop-closing-quote", "drop-both-quotes":
+		attrs, k := pickAttr(quoted)
+		if k < 0 {
+			return mutateTagLine(f, lines, i, "truncate")
+		}
+		a := attrs[k]
+		last := strings.LastIndexByte(a, '"')
+		a = a[:last] + a[last+1:]
+		if kind == "drop-both-quotes" {
+			a = strings.Replace(a, "\"", "", 1)
+		}
+		attrs[k] = a
+		out[i] = tag + ":" + strings.Join(attrs, ",")
+	case "truncate":
+		if len(l) > 1 {
+			out[i] = l[:1+f.Intn(len(l)-1)]
+		}
+	case "duplicate":
+		out = append(out[:i+1:i+1], append([]string{l}, lines[i+1:]...)...)
+	case "absurd-number":
+		locs := digitsRe.FindAllStringIndex(val, -1)
+		if len(locs) == 0 {
+			return mutateTagLine(f, lines, i, "drop-value")
+		}
+		lc := locs[f.Intn(len(locs))]
+		out[i] = tag + ":" + val[:lc[0]] + absurdNumbers[f.Intn(len(absurdNumbers))] + val[lc[1]:]
+	case "delete-next-line": // the URI line of an EXTINF / EXT-X-STREAM-INF, or whatever follows
+		if i+1 < len(lines) {
+			out = append(out[:i+1:i+1], lines[i+2:]...)
+		} else {
+			return mutateTagLine(f, lines, i, "truncate")
+		}
+	case "empty-attribute-value", "drop-equals":
+		attrs, k := pickAttr(func(a string) bool { return strings.Contains(a, "=") })
+		if k < 0 {
+			return mutateTagLine(f, lines, i, "drop-value")
+		}
+		e := strings.IndexByte(attrs[k], '=')
+		if kind == "drop-equals" {
+			attrs[k] = attrs[k][:e] + attrs[k][e+1:]
+		} else {
+			attrs[k] = attrs[k][:e+1]
+		}
+		out[i] = tag + ":" + strings.Join(attrs, ",")
+	default:
+		panic("unknown line mutation " + kind)
+	}
+	return out
+}
+
+var extinfNoCommaRe = regexp.MustCompile(`(?m)^#EXTINF:[0-9]+(\.[0-9]+)?\r?$`)
+
+type lineMutated struct {
+	body  []byte
+	fault string
+}
+
+// lineMutations: n playlists with one (sometimes two or three) mutated tag lines, from a generator of their own.
+// Three out of four start from a valid base playlist, the others from a corpus body. One in five cuts an EXTINF
+// line at its comma. The first ones are fixed: every base playlist with its first and with its last EXTINF cut.
+func lineMutations(f *rng.R, bodies [][]byte, n int) []lineMutated {
+	var out []lineMutated
+	tagLines := func(lines []string, prefix string) []int {
+		var idx []int
+		for i, l := range lines {
+			if strings.HasPrefix(l, prefix) {
+				idx = append(idx, i)
+			}
+		}
+		return idx
+	}
+	for _, b := range basePlaylists {
+		lines := strings.Split(b, "\n")
+		idx := tagLines(lines, "#EXTINF:")
+		if len(idx) == 0 {
+			continue
+		}
+		for _, i := range []int{idx[0], idx[len(idx)-1]} {
+			out = append(out, lineMutated{[]byte(strings.Join(mutateTagLine(f, lines, i, "cut-from-comma"), "\n")), "line:cut-from-comma:#EXTINF"})
+		}
+	}
+	for k := 0; k < n; k++ {
+		var src string
+		if len(bodies) == 0 || f.Bool(3, 4) {
+			src = basePlaylists[f.Intn(len(basePlaylists))]
+		} else {
+			src = string(bodies[f.Intn(len(bodies))])
+		}
+		lines := strings.Split(src, "\n")
+		name := ""
+		for m, nm := 0, 1+f.Pick(8, 2, 1); m < nm; m++ {
+			prefix, kind := "#EXT", lineMutKinds[f.Intn(len(lineMutKinds))]
+			if m == 0 && f.Bool(1, 5) {
+				prefix, kind = "#EXTINF:", "cut-from-comma"
+			}
+			idx := tagLines(lines, prefix)
+			if len(idx) == 0 {
+				idx = tagLines(lines, "#")
+			}
+			if len(idx) == 0 {
+				break
+			}
+			i := idx[f.Intn(len(idx))]
+			if name == "" {
+				tag := lines[i]
+				if c := strings.IndexAny(tag, ":,= "); c >= 0 {
+					tag = tag[:c]
+				}
+				if len(tag) > 30 {
+					tag = tag[:30]
+				}
+				name = "line:" + kind + ":" + tag
+			}
+			lines = mutateTagLine(f, lines, i, kind)
+		}
+		if name == "" {
+			name = "line:none"
+		}
+		out = append(out, lineMutated{[]byte(strings.Join(lines, "\n")), name})
+	}
+	return out
+}
+
 // corpusRecipes: every corpus body (and a few mutations of it) at every playlist position:
 // primary; stream playlist behind a valid multivariant playlist; reload of a live MPEG-TS
 // playlist; reload of a low-latency playlist.
-func corpusRecipes(bodies [][]byte, r *rng.R, mutations int) []*Recipe {
+// Then (added later: their generator is a fork, so that the bodies above stay what they were for a seed) the
+// valid base playlists and lineMuts grammar-aware line-level mutations (see lineMutations), at every position too.
+func corpusRecipes(bodies [][]byte, r *rng.R, mutations int, lineMuts int) []*Recipe {
 	var out []*Recipe
 	var all [][]byte
 	all = append(all, bodies...)
+	fLines := r.Fork(0x11E5)
 	for k := 0; k < mutations && len(bodies) > 0; k++ {
 		b := append([]byte{}, bodies[r.Intn(len(bodies))]...)
 		switch r.Intn(5) {
@@ -740,6 +976,31 @@ func corpusRecipes(bodies [][]byte, r *rng.R, mutations int) []*Recipe {
 		// reload positions are built in buildCorpusReload (two bodies for one path)
 		out = append(out, &Recipe{Kind: "playlist-corpus", CloseAt: -1, RawPrimary: b, Streams: []StreamR{tsStream()}, Faults: []string{"corpus:reload-live"}})
 		out = append(out, &Recipe{Kind: "playlist-corpus", CloseAt: -1, RawPrimary: b, Streams: []StreamR{mp4Stream()}, Faults: []string{"corpus:reload-ll"}})
+	}
+	// the additional loop: base playlists as they are, then the line-level mutations
+	var more []lineMutated
+	for _, b := range basePlaylists {
+		more = append(more, lineMutated{[]byte(b), "line:base-playlist"})
+	}
+	more = append(more, lineMutations(fLines, bodies, lineMuts)...)
+	for _, m := range more {
+		b := m.body
+		// the media resources the playlist names: fMP4 ones if it mentions any, else MPEG-TS
+		stream := tsStream
+		if bytes.Contains(b, []byte(".mp4")) {
+			stream = mp4Stream
+		}
+		var tags []string
+		if extinfNoCommaRe.Match(b) {
+			tags = []string{"playlist:EXTINF-without-comma"}
+		}
+		out = append(out, &Recipe{Kind: "playlist-corpus", CloseAt: -1, RawPrimary: b, Streams: []StreamR{stream()}, Tags: tags, Faults: []string{"corpus:primary", m.fault}})
+		s := stream()
+		s.RawPlaylist = b
+		out = append(out, &Recipe{Kind: "playlist-corpus", CloseAt: -1, Multivariant: true, Tags: tags,
+			Variants: []VariantR{{Codecs: "avc1.640028", Bandwidth: 1000, Stream: 0}}, Streams: []StreamR{s}, Faults: []string{"corpus:stream", m.fault}})
+		out = append(out, &Recipe{Kind: "playlist-corpus", CloseAt: -1, RawPrimary: b, Streams: []StreamR{tsStream()}, Tags: tags, Faults: []string{"corpus:reload-live", m.fault}})
+		out = append(out, &Recipe{Kind: "playlist-corpus", CloseAt: -1, RawPrimary: b, Streams: []StreamR{mp4Stream()}, Tags: tags, Faults: []string{"corpus:reload-ll", m.fault}})
 	}
 	return out
 }
@@ -840,11 +1101,17 @@ func main() {
 		for i := 0; i < count; i++ {
 			recipes = append(recipes, genRecipe(rng.New(*seed, uint64(i))))
 		}
-		muts := 30
+		muts, lineMuts := 30, 60
 		if *tier == "thorough" {
-			muts = 1500
+			muts, lineMuts = 1500, 800
 		}
-		recipes = append(recipes, corpusRecipes(readCorpus(*repo), rng.New(*seed, 1<<40), muts)...)
+		recipes = append(recipes, corpusRecipes(readCorpus(*repo), rng.New(*seed, 1<<40), muts, lineMuts)...)
+		// added later, after everything else, so that the recipes above keep their numbers: content recipes
+		// with one absurd byte range each: the boundary set, and a tenth as many generated ones as content recipes
+		recipes = append(recipes, absurdRangeBoundaryRecipes()...)
+		for i := 0; i < (count+9)/10; i++ {
+			recipes = append(recipes, genAbsurdRangeRecipe(rng.New(*seed, 1<<41+uint64(i))))
+		}
 	}
 
 	// run everything in parallel
@@ -866,6 +1133,7 @@ func main() {
 				return
 			}
 			patchCorpusReload(r, b)
+			d.lit, d.refused = b.LitRange, b.Refused
 			b.Job.DeadlineMS = rn.quickDL
 			b.Job.CloseDeadlineMS = rn.quickDL
 			if r.Kind == "playlist-corpus" {
@@ -1050,6 +1318,19 @@ func main() {
 			if d.rr.Child != nil && d.rr.Child.AfterCloseMS > 4000 {
 				dist["close:slow(>4s)"]++
 			}
+			if d.lit && d.rr.Child != nil && d.rr.Child.NeededClose {
+				// absurd byte ranges (oracle leg): a VOD stream whose playlist declares an absurd range must still end
+				// by itself, with an error or after playing what the server returned
+				sig := signature(r, &d.rr) + ":no-end-without-close"
+				if !minimised["final:"+sig] {
+					minimised["final:"+sig] = true
+					failures = append(failures, failure{Signature: sig,
+						What: fmt.Sprintf("a VOD stream listed with an absurd byte range neither played to the end nor ended with an error within %d ms: "+
+							"Wait() returned (%s) only after the harness called Close(); goroutines were in: %s",
+							rn.quickDL, d.rr.Child.WaitErr, strings.Join(d.rr.Child.BlockedIn, " | ")),
+						Input: rj})
+				}
+			}
 			if d.rr.Child != nil && d.rr.Child.NeededClose {
 				dist["closed:needed-close:"+r.Kind]++
 				fmt.Fprintf(os.Stderr, "needed close: %s\n", rj)
@@ -1060,7 +1341,10 @@ func main() {
 
 		// the model comparison: content recipes with at most one fault, no planned Close,
 		// a primary playlist that parses
-		compare := r.Kind == "content" && r.CloseAt < 0 && r.CloseAfterDataMS == 0 && d.abs != nil && d.abs.PrimaryErr == "" &&
+		if d.lit {
+			dist["absurd-byte-range:"+map[bool]string{true: "refused-by-server(oracle-only)", false: "served"}[d.refused]]++
+		}
+		compare := r.Kind == "content" && !d.refused && r.CloseAt < 0 && r.CloseAfterDataMS == 0 && d.abs != nil && d.abs.PrimaryErr == "" &&
 			(d.rr.Class == "eos" || d.rr.Class == "err" || d.rr.Class == "panic" || d.rr.Class == "stall")
 		if compare {
 			if shard == nil || inShard >= shardSize {
@@ -1146,7 +1430,11 @@ func main() {
 			"with 0..n structure-aware deviations (unsupported codecs, time scale 0, track-id permutations / unknown / duplicate ids, missing tracks, " +
 			">10 tracks, empty trun / moof / segment, box-level truncation / drop / rename / duplication of init and segments, absurd durations and base times, " +
 			"undecodable payloads, MPEG-TS stream types nobody supports, PES without PTS, packet-level truncation, mixed containers, OnTracks error, Close at a request position) " +
-			"plus every fuzz-corpus playlist at every playlist position; distinct by SHA-256 of the recipe; non-trivial = a content recipe with >= 1 deviation " +
+			"plus every fuzz-corpus playlist (and byte-level mutations of them) at every playlist position; plus valid playlists carrying every tag the decoder reads " +
+			"and grammar-aware line-level mutations of their tag lines (cut at the first comma - #EXTINF:<duration> without comma several times per run -, value / colon / " +
+			"attribute / quote / '=' dropped, truncated, duplicated, following line deleted, absurd numbers) from a forked generator; plus absurd byte ranges " +
+			"(EXT-X-BYTERANGE and EXT-X-MAP BYTERANGE with lengths 0, 2^62, 2^63-1, 2^63, 2^64-1 and offsets that make offset + length wrap around 2^64): " +
+			"model-compared when the stub serves bytes, oracle-only (no crash, no hang, ends by itself) when it answers 416; distinct by SHA-256 of the recipe; non-trivial = a content recipe with >= 1 deviation " +
 			"whose child fetched at least one media resource (or panicked)",
 		"samples":                       samples,
 		"distribution":                  dist,
@@ -1183,6 +1471,20 @@ func recipeHasManyPartTracks(r *Recipe) bool {
 				n += len(p.Tracks)
 			}
 			if n > 10 {
+				return true
+			}
+		}
+	}
+	return false
+}
+
+func recipeHasLiteralRange(r *Recipe) bool {
+	for _, s := range r.Streams {
+		if strings.HasPrefix(s.MapRange, "lit:") {
+			return true
+		}
+		for _, g := range s.Segments {
+			if strings.HasPrefix(g.Range, "lit:") {
 				return true
 			}
 		}
